@@ -455,7 +455,7 @@ pub fn describe_grammars(thorough: bool) -> String {
 
 pub fn describe_plan(p: &Plan) -> String {
 	format!(
-		"per AST: full per-site product of definition-name spellings (inherited / dotted fullname / simple name + namespace attribute incl. \"\" / dotted + contradicting namespace attribute) x reference spellings (simple / fullname) under the plain document-level configuration; 'every site takes option k' (k=0..3; primitives as string or {{\"type\":..}} too) under all 18 document-level configurations (attribute order type-first/name-first/reversed x extra attributes none/doc+aliases+default+order/unknown keys with nested JSON x minified/whitespace) for ASTs with <= {} named types and the hand-written families (larger: k=0..3 plain + k=1 under the 17 others){}{}{}; `scale` omitted where it is 0 in the decimal families; leaf cap {} per product",
+		"per AST: full per-site product of definition-name spellings (inherited / dotted fullname / simple name + namespace attribute incl. \"\" / dotted + contradicting namespace attribute) x reference spellings (simple / fullname) under the plain document-level configuration; 'every site takes option k' (k=0..3; primitives as string or {{\"type\":..}} too) under all 18 document-level configurations (attribute order type-first/name-first/reversed x extra attributes none/doc+aliases+default+order/unknown keys with nested JSON x minified/whitespace) for ASTs with <= {} named types and the hand-written families (larger: k=0..3 plain + k=1 under the 17 others){}{}{}; bare strings in type position (primitives and references: root, field type, items, values, union members) written with a \\uXXXX escape: all sites at once (first / last character) in 6 spellings for every AST, every non-empty subset of the sites (<= 4 sites) or every single site for ASTs with <= 2 named types and the hand-written families; `scale` omitted where it is 0 in the decimal families; leaf cap {} per product",
 		p.diag_full_max_named,
 		if p.full_product_max_named > 0 { format!("; all sites (names x references x primitives x scale) x 18 configurations for ASTs with <= {} named types and <= 14 nodes", p.full_product_max_named) } else { String::new() },
 		if p.all_sites_product_max_named > 0 { format!("; all sites under the plain configuration for ASTs with <= {} named types and <= 14 nodes", p.all_sites_product_max_named) } else { String::new() },
@@ -709,7 +709,7 @@ pub fn invalid_ast_edits(ast: &RSchema) -> Vec<(&'static str, RSchema)> {
 
 /// Invalid documents derived from a valid JSON document by deleting one required attribute or
 /// replacing a node by the bare name of a complex type.
-pub fn invalid_json_edits(doc: &J) -> Vec<(&'static str, J)> {
+pub fn invalid_json_edits(doc: &J, all_complex_names: bool) -> Vec<(&'static str, J)> {
 	// paths of schema-position nodes
 	#[derive(Clone)]
 	enum Step {
@@ -817,7 +817,8 @@ pub fn invalid_json_edits(doc: &J) -> Vec<(&'static str, J)> {
 				out.push(("missing-precision", set(doc, p, &del("precision"))));
 			}
 		}
-		for complex in ["record", "enum", "fixed", "array", "map"] {
+		let names: &[&str] = if all_complex_names { &["record", "enum", "fixed", "array", "map"] } else { &["record", "array"] };
+		for complex in names.iter().copied() {
 			out.push(("complex-type-as-bare-string", set(doc, p, &|_| J::Str(complex.into()))));
 		}
 	}
@@ -922,6 +923,10 @@ pub struct Plan {
 	/// names x refs under each of the 17 other document-level configurations, for ASTs with at
 	/// most this many named types
 	pub cfg_product_max_named: usize,
+	/// bare type-position strings (primitives and references) written with a \uXXXX escape: all
+	/// sites at once for every AST (5 documents), per site for ASTs with <= 2 named types
+	/// 0 = none, 1 = the all-sites spellings only, 2 = all-sites and per-site
+	pub escapes: usize,
 }
 
 /// Enumerate the spellings of one case according to the plan.
@@ -966,6 +971,34 @@ pub fn for_each_spelling(case: &AstCase, plan: &Plan, cover: &mut Cover, f: &mut
 			}
 		}
 	}
+	if plan.escapes >= 1 {
+		// every bare type-position string escaped (first character for even k, last for odd k)
+		let mut cfgs: Vec<(usize, SpellCfg)> = (0..4).map(|k| (k, SpellCfg { vary_names: true, vary_refs: true, vary_prims: true, vary_scale: false, attr_order: 0, extras: 0, whitespace: 0 })).collect();
+		cfgs.push((1, SpellCfg { vary_names: true, vary_refs: true, vary_prims: true, vary_scale: false, attr_order: 2, extras: 2, whitespace: 1 }));
+		cfgs.push((0, SpellCfg { vary_names: false, vary_refs: false, vary_prims: false, vary_scale: false, attr_order: 1, extras: 1, whitespace: 0 }));
+		for (k, cfg) in cfgs {
+			let text = spell(&case.ast, &mut DiagPick(k), &cfg);
+			let (text, n) = escape_type_strings(&text, &mut |_| Some(k % 2 == 1));
+			if n > 0 {
+				f(&Doc { case, text, tok: SpellTok::Diag(k), cfg }, cover);
+				cover.states += 1;
+				cover.transitions += 1;
+			}
+		}
+		// per site: every non-empty subset of the sites (<= 4 sites) or every single site
+		if plan.escapes >= 2 && (case.feats.named <= 2 || !case.family.starts_with('k')) {
+			let cfg = SpellCfg::plain();
+			let base = spell(&case.ast, &mut vmodel::Zero, &cfg);
+			let (_, n) = escape_type_strings(&base, &mut |_| None);
+			let subsets: Vec<u64> = if n <= 4 { (1..(1u64 << n)).collect() } else { (0..n.min(60)).map(|i| 1u64 << i).collect() };
+			for m in subsets {
+				let (text, _) = escape_type_strings(&base, &mut |i| if m >> i & 1 == 1 { Some(false) } else { None });
+				f(&Doc { case, text, tok: SpellTok::Diag(0), cfg: cfg.clone() }, cover);
+				cover.states += 1;
+				cover.transitions += 1;
+			}
+		}
+	}
 	let small = case.ast.size() <= 14;
 	let mut product = |cfg: SpellCfg, what: &str, cover: &mut Cover| {
 		let st = explore(None, plan.product_cap, |ch| {
@@ -995,9 +1028,9 @@ pub fn for_each_spelling(case: &AstCase, plan: &Plan, cover: &mut Cover, f: &mut
 
 pub fn plan(thorough: bool) -> Plan {
 	if thorough {
-		Plan { product_names_refs: true, product_cap: 200_000, diag: true, diag_full_max_named: 2, full_product_max_named: 1, all_sites_product_max_named: 2, cfg_product_max_named: 2 }
+		Plan { product_names_refs: true, product_cap: 200_000, diag: true, diag_full_max_named: 2, full_product_max_named: 1, all_sites_product_max_named: 2, cfg_product_max_named: 2, escapes: 2 }
 	} else {
-		Plan { product_names_refs: true, product_cap: 20_000, diag: true, diag_full_max_named: 2, full_product_max_named: 0, all_sites_product_max_named: 0, cfg_product_max_named: 0 }
+		Plan { product_names_refs: true, product_cap: 20_000, diag: true, diag_full_max_named: 2, full_product_max_named: 0, all_sites_product_max_named: 0, cfg_product_max_named: 0, escapes: 2 }
 	}
 }
 
@@ -1561,4 +1594,128 @@ pub fn pending_at_once(s: &RSchema) -> usize {
 		}
 	}
 	max
+}
+
+// ---------------------------------------------------------------------------------------------
+// JSON escapes in type position
+
+const ESC_MARK: char = '\u{E000}';
+
+/// Rewrite a schema document so that chosen bare strings in TYPE position (the root, a field's
+/// `type`, array `items`, map `values`, union members — primitives and references; not the
+/// `type` attribute of a schema object, not names) are written with a `\uXXXX` escape for one
+/// of their characters. `choose(site index)` returns `None` (leave), `Some(false)` (escape the
+/// first character) or `Some(true)` (escape the last). Returns the text and the number of sites.
+pub fn escape_type_strings(text: &str, choose: &mut dyn FnMut(usize) -> Option<bool>) -> (String, usize) {
+	fn node(j: &mut J, n: &mut usize, choose: &mut dyn FnMut(usize) -> Option<bool>) {
+		match j {
+			J::Str(s) => {
+				let i = *n;
+				*n += 1;
+				if s.is_empty() {
+					return;
+				}
+				match choose(i) {
+					None => {}
+					Some(false) => s.insert(0, ESC_MARK),
+					Some(true) => {
+						let at = s.char_indices().last().map(|(i, _)| i).unwrap_or(0);
+						s.insert(at, ESC_MARK);
+					}
+				}
+			}
+			J::Arr(v) => v.iter_mut().for_each(|b| node(b, n, choose)),
+			J::Obj(kv) => {
+				let t = kv.iter().find(|(k, _)| k == "type").and_then(|(_, v)| v.as_str()).map(|s| s.to_owned());
+				let key = match t.as_deref() {
+					Some("record") => "fields",
+					Some("array") => "items",
+					Some("map") => "values",
+					_ => return,
+				};
+				for (k, v) in kv.iter_mut() {
+					if k != key {
+						continue;
+					}
+					if key == "fields" {
+						if let J::Arr(fs) = v {
+							for f in fs.iter_mut() {
+								if let J::Obj(fkv) = f {
+									for (fk, fv) in fkv.iter_mut() {
+										if fk == "type" {
+											node(fv, n, choose);
+										}
+									}
+								}
+							}
+						}
+					} else {
+						node(v, n, choose);
+					}
+				}
+			}
+			_ => {}
+		}
+	}
+	fn pretty(j: &J, ind: usize, out: &mut String) {
+		let pad = |n: usize, out: &mut String| {
+			out.push('\n');
+			for _ in 0..n {
+				out.push_str("  ");
+			}
+		};
+		match j {
+			J::Arr(a) if !a.is_empty() => {
+				out.push('[');
+				for (i, v) in a.iter().enumerate() {
+					if i > 0 {
+						out.push(',');
+					}
+					pad(ind + 1, out);
+					pretty(v, ind + 1, out);
+				}
+				pad(ind, out);
+				out.push(']');
+			}
+			J::Obj(kv) if !kv.is_empty() => {
+				out.push('{');
+				for (i, (k, v)) in kv.iter().enumerate() {
+					if i > 0 {
+						out.push(',');
+					}
+					pad(ind + 1, out);
+					vmodel::json::write_str(k, out);
+					out.push_str(": ");
+					pretty(v, ind + 1, out);
+				}
+				pad(ind, out);
+				out.push('}');
+			}
+			other => other.write_min(out),
+		}
+	}
+	let mut j = vmodel::json::parse(text).expect("own speller writes JSON");
+	let mut n = 0usize;
+	node(&mut j, &mut n, choose);
+	let rendered = if is_minified(text) {
+		j.to_min_string()
+	} else {
+		let mut s = String::new();
+		pretty(&j, 0, &mut s);
+		s
+	};
+	let mut out = String::with_capacity(rendered.len() + 16);
+	let mut it = rendered.chars();
+	while let Some(c) = it.next() {
+		if c == ESC_MARK {
+			let e = it.next().expect("marker precedes a character");
+			let mut buf = [0u16; 2];
+			for u in e.encode_utf16(&mut buf) {
+				out.push_str(&format!("\\u{:04x}", u));
+			}
+		} else {
+			out.push(c);
+		}
+	}
+	(out, n)
 }
